@@ -38,4 +38,19 @@ def build(u):
             note="slice handle_init#store: the `self.option_values.insert(name.to_string(), option_value);` statement; self is an env mirror "
                  "with the real field `option_values`; name: &String (key of the real `options` table) and option_value are declared in the unit")
     u.raw("}\n")
+    im2 = [it for it in m._walk(m.index["items"]) if it["kind"] == "impl" and any(f["kind"] == "fn" and f["name"] == "configure" for f in it.get("items", []))]
+    if len(im2) != 1:
+        from vlib.core import Undecided
+        raise Undecided(f"lost anchor: impl with configure resolves to {len(im2)} places")
+    g = m.find_fn_in(im2[0], "configure")
+    u.raw("impl<SC, NT, OPTS> BuilderHandover<SC, NT, OPTS> {   // env mirror of Builder for the hand-over\n")
+    u.slice(m, g, "cln_plugin::Builder::configure#handover",
+            r"^Ok\(Some\(ConfiguredPlugin \{", r"^Ok\(Some\(ConfiguredPlugin \{",
+            "fn configure__handover<ID, IN, OUT, RM, SUBS, WS, CFG>(self, init_id: ID, input: IN, output: OUT, rpcmethods: RM, "
+            "subscriptions: SUBS, all_subscription: WS, configuration: CFG) "
+            "-> (r: ::std::result::Result<Option<ConfiguredPlugin<ID, IN, OUT, RM, SC, NT, SUBS, WS, OPTS, CFG>>, AnyErr>)",
+            note="slice configure#handover: the tail expression `Ok(Some(ConfiguredPlugin { .. }))` of Builder::configure; Builder and "
+                 "ConfiguredPlugin are env mirrors with the real field names (option_values with its real type, the other fields of a "
+                 "type parameter each); the locals init_id, input, output, rpcmethods, subscriptions, all_subscription, configuration are declared")
+    u.raw("}\n")
     u.raw("} // verus!\nfn main() {}\n")
